@@ -164,6 +164,15 @@ def run(ctx, chk):
     if sampled and all(o.ok for o in chk.obls):
         raise AnalysisBroken('arithmetic on character values outside 0..255 was evaluated on representatives only in %s and no '
                              'violation was found: the result would not cover all wide characters' % ', '.join(sampled))
+    if chk.tier == 'thorough' and all(o.ok for o in chk.obls):
+        from ..selfval import validate
+        nval, bad = validate(ctx, results, codes)
+        if bad:
+            raise AnalysisBroken('extractor self-validation failed (%d of %d traces): %s' % (len(bad), nval, '; '.join(bad[:3])))
+        chk.extra['traces_validated_against_impl'] = nval
+        chk.analysed['self_validation'] = ('%d witness inputs (one per final configuration of the single-URI entry, both character '
+                                           'types) run through the parser compiled from the current sources: return code and error '
+                                           'position agree with the model on every one' % nval)
     chk.analysed['explorations'] = stats
     any_r = list(results.values())[0]
     chk.analysed['specification'] = dict(any_r['dfa'], source='uv/rfc3986.abnf (RFC 3986 Appendix A)')
